@@ -33,7 +33,7 @@ RULE = (
     "Campaign dag: Hypothesis DagProgram (1-5 tracer functions over 1-4 roots: tuple outputs, diamonds, nullary, "
     "signature/PipeFunc defaults, bound values, initial renames; one third each: full feature set / no bound values / "
     "single-output chains and diamonds) + a name-disjoint second program (one of 6 fixed shapes, all names prefixed) + "
-    "a sequence of 1-3 rewrite recipes expanded from one drawn integer, from {copy, cloudpickle round trip, join/| "
+    "a sequence of 1-3 rewrite recipes (derived, like all flags, from sha1(salt, program)), from {copy, cloudpickle round trip, join/| "
     "with the second program or 1-2 fresh PipeFuncs, update_renames (pipeline level or function by function; "
     "update_from current/original; plain or dotted targets), update_scope (inputs/outputs '*'/subset/None, exclude) "
     "and its removal, nest_funcs (set / '*') or NestedPipeFunc(...) on a convex single-leaf subset with "
@@ -183,6 +183,7 @@ class State:
         self.axes: list[dict] = []  # {"axis": name, "roots": [orig names], "n": N}
         self.opaque = False
         self.fresh = 0
+        self.renamed_nested_outs: set[str] = set()  # current names of nested-function outputs renamed after nesting
 
     def clone(self) -> "State":
         s = State([])
@@ -191,6 +192,7 @@ class State:
         s.axes = _copy.deepcopy(self.axes)
         s.opaque = self.opaque
         s.fresh = self.fresh
+        s.renamed_nested_outs = set(self.renamed_nested_outs)
         return s
 
     # --- queries
@@ -284,9 +286,13 @@ class State:
     def rename(self, old: str, new: str) -> None:
         if old == new:
             return
+        if old in self.renamed_nested_outs:
+            self.renamed_nested_outs.discard(old)
+            self.renamed_nested_outs.add(new)
         for n in self.nodes:
             if n.nested and old in n.outs:
                 n.out_renamed = True
+                self.renamed_nested_outs.add(new)
             if n.nested and old in n.params:
                 n.param_renamed = True
             n.params = [new if p == old else p for p in n.params]
@@ -420,7 +426,7 @@ class Ctx:
             return "DEFECT-nested-map-no-internal_shape"
         if isinstance(e, KeyError) and ("_pipefunc.py", "__call__") in frames[-2:] and st_.has_nested():
             key = e.args[0] if e.args else None
-            if any(n.nested and n.out_renamed and key in n.outs for n in st_.nodes):
+            if key in st_.renamed_nested_outs or any(n.nested and n.out_renamed and key in n.outs for n in st_.nodes):
                 return "DEFECT-nested-output-renamed-KeyError"
             if any(n.nested and n.leaf_multi for n in st_.nodes):
                 return "DEFECT-nested-tuple-leaf-KeyError"
@@ -451,9 +457,6 @@ class Ctx:
         self.out.fail(b, f"[{self.tag()}] {extra} {exc_detail(e)}")
 
     # ---- non-interference bookkeeping
-    def freeze(self, obj, state: State, why: str) -> None:
-        self.frozen.append({"obj": obj, "state": state.clone(), "snap": snapshot(obj), "vals": self.sample(obj, state), "why": why})
-
     def sample(self, obj, state: State):
         if self.kind == "map" or state.axes:
             return sample_map(self, obj, state)
@@ -1095,8 +1098,9 @@ def _stale_check(ctx: Ctx) -> None:
         return
     inner = {x for n in st_.nodes for x in n.inner_bound}
     want = set(st_.eff_roots()) | set(st_.produced())
+    ib = {base(x) for x in inner}
     for vname, have in views.items():
-        if have | inner != want | inner:
+        if {x for x in have if base(x) not in ib} != {x for x in want if base(x) not in ib}:
             b = "DEFECT-unpickled-pipeline-stale-after-function-level-update" if ctx.unpickled else "pipeline-stale-after-function-level-update"
             ctx.out.fail(b, f"[{ctx.tag()}] pipeline.{vname} shows {sorted(have)} functions have {sorted(want)}")
             break
@@ -1367,7 +1371,7 @@ def op_simplify(ctx: Ctx, rec: dict) -> bool:
         node = Node(["<simplified>"], ps, set(f.bound) | ib, [o for o in outs if o in prod], {x: x for x in ps + outs})
         node.nested = isinstance(f, NestedPipeFunc)
         node.inner_bound = ib
-        node.leaf_multi = any(len(n.outs) > 1 and set(n.outs) <= set(outs) for n in pre_nodes)
+        node.leaf_multi = any(len(n.outs) > 1 or n.leaf_multi for n in cone)
         node.multi_member = node.leaf_multi
         nodes.append(node)
     st_.nodes = nodes
@@ -1672,9 +1676,11 @@ def body_map(data) -> Outcome:
 # strategies (JSON recipes)
 #
 # Hypothesis draws whatever comes *after* a large variable-size value with a strong bias towards minimal values
-# (measured here: sequence length 1 and the first operation in > 60 % of the cases).  The rewrite sequence is
-# therefore expanded from ONE integer drawn first (a pure function of that integer, so the case stays a JSON recipe
-# and replays exactly), and the second program is an index into a fixed family.
+# (measured here: sequence length 1 and the first operation in > 60 % of the cases) and re-uses what comes *before*
+# it across many examples (measured: 116 distinct rewrite sequences in 625 cases).  Everything except the program is
+# therefore derived from sha1(salt, program) by a pure function inside the strategy: the case handed to the body is
+# still the complete explicit JSON recipe (replays do not depend on this derivation), and every distinct program
+# gets its own rewrite sequence, flags and second program.
 
 
 def _rw_record(rng, op: str) -> dict:
@@ -1713,10 +1719,7 @@ DAG_KINDS = (
 MAP_KINDS = ["copy", "pickle", "joinf", "rename", "rename", "scope", "scope", "unscope", "axis", "axis", "axis"]
 
 
-def expand_rw(seed: int, kinds: list[str], with_split: bool) -> list[dict]:
-    import random
-
-    rng = random.Random(seed)
+def expand_rw(rng, kinds: list[str], with_split: bool) -> list[dict]:
     any_ = lambda: rng.choice(kinds)  # noqa: E731
     shape = rng.choice(["free"] * 7 + ["scoped3", "scoped2"] + (["join3", "join2"] if with_split else []))
     if shape == "free":
@@ -1730,6 +1733,24 @@ def expand_rw(seed: int, kinds: list[str], with_split: bool) -> list[dict]:
     else:
         ops = ["joinp", "split"]
     return [_rw_record(rng, op) for op in ops]
+
+
+def _derive(d: dict, kind: str) -> dict:
+    """complete case from {"salt", "prog"}: flags, second program and rewrite recipes are a pure function of both"""
+    import hashlib
+    import random
+
+    h = hashlib.sha1(json.dumps([d["salt"], d["prog"]], sort_keys=True).encode()).hexdigest()
+    rng = random.Random(int(h, 16))
+    out = {"pick": rng.randrange(2**16), "around": rng.random() < 0.75}
+    if kind == "dag":
+        out["union"] = rng.random() < 0.25
+        out["prog2"] = json.loads(json.dumps(rng.choice(PROG2_FAMILY)))
+        out["rw"] = expand_rw(rng, DAG_KINDS, True)
+    else:
+        out["rw"] = expand_rw(rng, MAP_KINDS, False)
+    out["prog"] = d["prog"]
+    return out
 
 
 def _fn(name, params, outs, **kw):
@@ -1765,27 +1786,13 @@ def campaigns(tier):
         # chains and diamonds of single-output functions: every nest/simplify precondition is frequent
         dag_programs(max_funcs=5, min_funcs=2, allow_bound=False, allow_multi=False, allow_nullary=False, consistent_ignored_defaults=True),
     )
-    dag = st.fixed_dictionaries(
-        {
-            "pick": st.integers(0, 2**16 - 1),
-            "around": st.sampled_from([True, True, True, False]),
-            "union": st.sampled_from([False, False, False, True]),
-            "prog2": st.sampled_from(PROG2_FAMILY),
-            "rw": st.integers(0, 2**48 - 1).map(lambda s: expand_rw(s, DAG_KINDS, True)),
-            "prog": progs,
-        }
-    )
+    dag = st.fixed_dictionaries({"salt": st.integers(0, 2**32 - 1), "prog": progs}).map(lambda d: _derive(d, "dag"))
     mpc = st.fixed_dictionaries(
-        {
-            "pick": st.integers(0, 2**16 - 1),
-            "around": st.sampled_from([True, True, True, False]),
-            "rw": st.integers(0, 2**48 - 1).map(lambda s: expand_rw(s, MAP_KINDS, False)),
-            "prog": mp.map_programs(max_funcs=3, max_rank=2, storages=("dict",), max_size=2, **_MP_EXTRA),
-        }
-    )
+        {"salt": st.integers(0, 2**32 - 1), "prog": mp.map_programs(max_funcs=3, max_rank=2, storages=("dict",), max_size=2, **_MP_EXTRA)}
+    ).map(lambda d: _derive(d, "map"))
     return [
-        Campaign("dag", body_dag, dag, quick=5000, thorough=200000, describe="DagPrograms x <=3 rewrites, pipeline(...) and map"),
-        Campaign("map", body_map, mpc, quick=800, thorough=40000, describe="MapPrograms x <=3 rewrites under map"),
+        Campaign("dag", body_dag, dag, quick=5000, thorough=120000, describe="DagPrograms x <=3 rewrites, pipeline(...) and map"),
+        Campaign("map", body_map, mpc, quick=800, thorough=24000, describe="MapPrograms x <=3 rewrites under map"),
     ]
 
 
